@@ -1,10 +1,443 @@
 package main
 
-import "verif/engine/interp"
+import (
+	"bytes"
+	"fmt"
+	"os"
+	"os/exec"
+	"path/filepath"
+	"sort"
+	"strconv"
+	"strings"
+	"time"
+
+	"verif/engine/interp"
+	"verif/engine/sym"
+)
 
 func cmdRace(args []string) int { return 0 }
 
-// raceDecide is filled in by the schedule checker (C18).
+type raceCand struct {
+	harness string
+	key     string // funcA | funcB | location
+	a, b    [2]int // (thread, index)
+	fa, fb  string
+	loc     string
+	kindA   string
+	kindB   string
+}
+
+func shortFn(f string) string {
+	// (*github.com/scigolib/hdf5/internal/structures.WritableBTreeV2).BatchRebalance -> BatchRebalance
+	if i := strings.LastIndex(f, "."); i >= 0 {
+		f = f[i+1:]
+	}
+	return strings.TrimSuffix(f, "$1")
+}
+
+// scheduleQueries decides, for one recorded multi-thread trace, which conflicting access pairs can be made
+// adjacent by some schedule that respects program order, goroutine start, channel close/receive,
+// WaitGroup and mutual exclusion. The schedule (one integer clock per event) is the solver's variable.
+func scheduleQueries(harness string, tt *interp.ThreadTrace, seen map[string]bool, stats *raceStats) []raceCand {
+	// 1. shared locations
+	type lockey struct{ obj, slot int }
+	threadsOf := map[lockey]map[int]bool{}
+	writes := map[lockey]bool{}
+	for ti, evs := range tt.Threads {
+		for _, e := range evs {
+			if e.Kind == "R" || e.Kind == "W" {
+				k := lockey{e.Obj, e.Slot}
+				if threadsOf[k] == nil {
+					threadsOf[k] = map[int]bool{}
+				}
+				threadsOf[k][ti] = true
+				if e.Kind == "W" {
+					writes[k] = true
+				}
+			}
+		}
+	}
+	shared := map[lockey]bool{}
+	for k, ts := range threadsOf {
+		if len(ts) >= 2 && writes[k] {
+			shared[k] = true
+		}
+	}
+	if len(shared) == 0 {
+		return nil
+	}
+	// 2. kept events
+	type ev struct {
+		interp.Event
+		t, i int
+		name string
+	}
+	var kept [][]ev
+	for ti, evs := range tt.Threads {
+		var l []ev
+		l = append(l, ev{Event: interp.Event{Kind: "begin"}, t: ti})
+		for _, e := range evs {
+			keep := true
+			if e.Kind == "R" || e.Kind == "W" {
+				keep = shared[lockey{e.Obj, e.Slot}]
+			}
+			if keep {
+				l = append(l, ev{Event: e, t: ti})
+			}
+		}
+		for i := range l {
+			l[i].i = i
+			l[i].name = fmt.Sprintf("c_%d_%d", ti, i)
+		}
+		kept = append(kept, l)
+	}
+	var sb strings.Builder
+	var all []string
+	for _, l := range kept {
+		for _, e := range l {
+			fmt.Fprintf(&sb, "(declare-const %s Int)\n", e.name)
+			all = append(all, e.name)
+		}
+		for i := 1; i < len(l); i++ {
+			fmt.Fprintf(&sb, "(assert (< %s %s))\n", l[i-1].name, l[i].name)
+		}
+	}
+	if len(all) > 1 {
+		fmt.Fprintf(&sb, "(assert (distinct %s))\n", strings.Join(all, " "))
+	}
+	// goroutine start, channel and waitgroup edges
+	closes := map[int]string{}
+	var sends = map[int][]string{}
+	for _, l := range kept {
+		for _, e := range l {
+			switch e.Kind {
+			case "go":
+				if e.Child < len(kept) && len(kept[e.Child]) > 0 {
+					fmt.Fprintf(&sb, "(assert (< %s %s))\n", e.name, kept[e.Child][0].name)
+				}
+			case "close":
+				closes[e.Obj] = e.name
+			case "send":
+				sends[e.Obj] = append(sends[e.Obj], e.name)
+			}
+		}
+	}
+	recvCount := map[int]int{}
+	wgDone := map[[2]int][]ev{}
+	for _, l := range kept {
+		for _, e := range l {
+			switch e.Kind {
+			case "recvclosed":
+				if c, ok := closes[e.Obj]; ok {
+					fmt.Fprintf(&sb, "(assert (< %s %s))\n", c, e.name)
+				}
+			case "recv":
+				k := recvCount[e.Obj]
+				recvCount[e.Obj]++
+				if k < len(sends[e.Obj]) {
+					fmt.Fprintf(&sb, "(assert (< %s %s))\n", sends[e.Obj][k], e.name)
+				}
+			case "wgdone":
+				wgDone[[2]int{e.Obj, e.Slot}] = append(wgDone[[2]int{e.Obj, e.Slot}], e)
+			}
+		}
+	}
+	for _, l := range kept {
+		for _, e := range l {
+			if e.Kind == "wgwait" {
+				for _, d := range wgDone[[2]int{e.Obj, e.Slot}] {
+					if d.t != e.t {
+						fmt.Fprintf(&sb, "(assert (< %s %s))\n", d.name, e.name)
+					}
+				}
+			}
+		}
+	}
+	// critical sections
+	type section struct {
+		t          int
+		start, end string
+		lo, hi     int
+		read       bool
+	}
+	sections := map[[2]int][]section{}
+	for ti, l := range kept {
+		open := map[[2]int][]int{}
+		for _, e := range l {
+			k := [2]int{e.Obj, e.Slot}
+			switch e.Kind {
+			case "lock", "rlock":
+				open[k] = append(open[k], e.i)
+			case "unlock", "runlock":
+				if st := open[k]; len(st) > 0 {
+					s := st[len(st)-1]
+					open[k] = st[:len(st)-1]
+					sections[k] = append(sections[k], section{t: ti, start: l[s].name, end: e.name, lo: s, hi: e.i, read: e.Kind == "runlock"})
+				}
+			}
+		}
+	}
+	for _, secs := range sections {
+		for i := range secs {
+			for j := i + 1; j < len(secs); j++ {
+				a, b := secs[i], secs[j]
+				if a.t == b.t || (a.read && b.read) {
+					continue
+				}
+				fmt.Fprintf(&sb, "(assert (or (< %s %s) (< %s %s)))\n", a.end, b.start, b.end, a.start)
+			}
+		}
+	}
+	inSection := func(e ev) map[[2]int]bool {
+		res := map[[2]int]bool{}
+		for k, secs := range sections {
+			for _, s := range secs {
+				if s.t == e.t && s.lo < e.i && e.i < s.hi && !s.read {
+					res[k] = true
+				}
+			}
+		}
+		return res
+	}
+	// 3. candidate pairs
+	byLoc := map[lockey][]ev{}
+	for _, l := range kept {
+		for _, e := range l {
+			if e.Kind == "R" || e.Kind == "W" {
+				byLoc[lockey{e.Obj, e.Slot}] = append(byLoc[lockey{e.Obj, e.Slot}], e)
+			}
+		}
+	}
+	var cands []raceCand
+	type q struct {
+		a, b ev
+		key  string
+	}
+	var queries []q
+	for _, evs := range byLoc {
+		for i := range evs {
+			for j := i + 1; j < len(evs); j++ {
+				a, b := evs[i], evs[j]
+				if a.t == b.t || (a.Kind == "R" && b.Kind == "R") {
+					continue
+				}
+				fa, fb := shortFn(a.Func), shortFn(b.Func)
+				if fa > fb {
+					fa, fb = fb, fa
+				}
+				key := fa + " | " + fb + " | " + a.Name
+				if seen[key] {
+					continue
+				}
+				// common write lock => ordered
+				la, lb := inSection(a), inSection(b)
+				common := false
+				for k := range la {
+					if lb[k] {
+						common = true
+					}
+				}
+				if common {
+					continue
+				}
+				queries = append(queries, q{a, b, key})
+			}
+		}
+	}
+	if len(queries) == 0 {
+		return nil
+	}
+	sort.Slice(queries, func(i, j int) bool { return queries[i].key < queries[j].key })
+	// 4. ask the solver
+	ctx := sym.NewCtx()
+	s, err := sym.NewSolver("z3", ctx, 20000)
+	if err != nil {
+		return nil
+	}
+	defer s.Close()
+	s.Raw(sb.String())
+	for _, qu := range queries {
+		if seen[qu.key] {
+			continue
+		}
+		s.Raw("(push 1)")
+		s.Raw(fmt.Sprintf("(assert (= %s (+ %s 1)))", qu.b.name, qu.a.name))
+		t0 := time.Now()
+		r := s.RawCheck()
+		stats.queries++
+		stats.time += time.Since(t0)
+		if r != sym.Sat {
+			// the other order
+			s.Raw("(pop 1)")
+			s.Raw("(push 1)")
+			s.Raw(fmt.Sprintf("(assert (= %s (+ %s 1)))", qu.a.name, qu.b.name))
+			r = s.RawCheck()
+			stats.queries++
+		}
+		s.Raw("(pop 1)")
+		switch r {
+		case sym.Sat:
+			stats.sat++
+			seen[qu.key] = true
+			cands = append(cands, raceCand{harness: harness, key: qu.key, fa: shortFn(qu.a.Func), fb: shortFn(qu.b.Func), loc: qu.a.Name, kindA: qu.a.Kind, kindB: qu.b.Kind})
+		case sym.Unsat:
+			stats.unsat++
+			if os.Getenv("VERIF_DEBUG") != "" {
+				fmt.Fprintf(os.Stderr, "race unsat: %s (%s t%d#%d vs %s t%d#%d)\n", qu.key, qu.a.Kind, qu.a.t, qu.a.i, qu.b.Kind, qu.b.t, qu.b.i)
+			}
+		default:
+			stats.unknown++
+		}
+	}
+	stats.events += len(all)
+	return cands
+}
+
+type raceStats struct {
+	queries, sat, unsat, unknown, events int
+	time                                 time.Duration
+	traces                               int
+}
+
+// raceDecide runs the schedule queries for every trace-mode harness and confirms candidates with `go test -race`.
 func raceDecide(p *interp.Program, runs []*harnessRun, thorough bool, known []KnownFinding) (notes []string, violations int, problems []string) {
-	return nil, 0, nil
+	stats := &raceStats{}
+	var cands []raceCand
+	for _, r := range runs {
+		if r.res == nil || len(r.res.Events) == 0 {
+			continue
+		}
+		seen := map[string]bool{}
+		for _, tt := range r.res.Events {
+			if tt == nil || len(tt.Threads) < 2 {
+				continue
+			}
+			stats.traces++
+			cands = append(cands, scheduleQueries(r.name, tt, seen, stats)...)
+		}
+	}
+	notes = append(notes, fmt.Sprintf("schedule checker: %d multi-thread traces, %d events, %d schedule queries (sat %d unsat %d unknown %d) solver %.1fs",
+		stats.traces, stats.events, stats.queries, stats.sat, stats.unsat, stats.unknown, stats.time.Seconds()))
+	if stats.unknown > 0 {
+		problems = append(problems, fmt.Sprintf("%d schedule queries returned unknown", stats.unknown))
+	}
+	if len(cands) == 0 {
+		return
+	}
+	// confirmation: run each harness natively under the race detector once and look for the two functions in one report
+	byHarness := map[string][]raceCand{}
+	for _, c := range cands {
+		byHarness[c.harness] = append(byHarness[c.harness], c)
+	}
+	var hs []string
+	for h := range byHarness {
+		hs = append(hs, h)
+	}
+	sort.Strings(hs)
+	for _, h := range hs {
+		reports, err := nativeRaceRun(p, h)
+		if err != nil {
+			problems = append(problems, "race replay: "+err.Error())
+			continue
+		}
+		donePair := map[string]bool{}
+		for _, c := range byHarness[h] {
+			if donePair[c.fa+" | "+c.fb] {
+				continue
+			}
+			confirmed := false
+			for _, rep := range reports {
+				if strings.Contains(rep, "."+c.fa+"(") && strings.Contains(rep, "."+c.fb+"(") {
+					confirmed = true
+				}
+				if c.fa == c.fb && strings.Count(rep, "."+c.fa+"(") >= 2 {
+					confirmed = true
+				}
+			}
+			desc := fmt.Sprintf("%s (%s) and %s (%s) on %s", c.fa, c.kindA, c.fb, c.kindB, c.loc)
+			if !confirmed {
+				notes = append(notes, "NOTE: schedule found for "+desc+" in "+h+" but the race detector did not report it in the replay run (not counted)")
+				continue
+			}
+			donePair[c.fa+" | "+c.fb] = true
+			var kf *KnownFinding
+			for i := range known {
+				k := &known[i]
+				if k.Property == "C18" && k.Status == "open" && harnessMatch(strings.TrimPrefix(k.Harness, "race:"), h) && strings.HasPrefix(k.Harness, "race:") && k.Label == c.fa+" | "+c.fb {
+					kf = k
+				}
+			}
+			if kf != nil {
+				notes = append(notes, fmt.Sprintf("KNOWN-FINDING: property=C18 %s data race %s: %s", kf.ID, desc, kf.What))
+				continue
+			}
+			violations++
+			dir := filepath.Join(verifDir, "replays", "C18", h+"-"+strings.ReplaceAll(c.fa+"_"+c.fb, " ", ""))
+			os.MkdirAll(dir, 0o755)
+			os.WriteFile(filepath.Join(dir, "race.txt"), []byte(desc+"\n\n"+strings.Join(reports, "\n----\n")), 0o644)
+			os.WriteFile(filepath.Join(dir, "model.json"), []byte(fmt.Sprintf(`{"property":"C18","harness":%q,"label":%q,"kind":"race","vector":[],"expected":"race","pkg_dir":"","pkg_name":""}`, h, c.fa+" | "+c.fb)), 0o644)
+			notes = append(notes, fmt.Sprintf("VIOLATION property=C18 replay=%s", dir))
+			notes = append(notes, "  data race: "+desc)
+		}
+	}
+	return
+}
+
+// nativeRaceRun executes one harness natively under `go test -race` and returns the race reports.
+func nativeRaceRun(p *interp.Program, harness string) ([]string, error) {
+	dir, pn := harnessPkg(p, harness)
+	work, _ := os.MkdirTemp(filepath.Join(verifDir, ".work"), "race-")
+	defer os.RemoveAll(work)
+	src := "//go:build verif\n\npackage " + pn + "\n\nimport (\n\t\"testing\"\n\n\t\"github.com/scigolib/hdf5/internal/vrt\"\n)\n\nfunc TestVerifRace(t *testing.T) {\n\tout, _ := vrt.Run(" + harness + ", nil)\n\tt.Log(out)\n}\n"
+	testFile := filepath.Join(work, "zz_verif_race_test.go")
+	os.WriteFile(testFile, []byte(src), 0o644)
+	repl := map[string]string{}
+	for v, real := range p.Overlay {
+		repl[v] = real
+	}
+	repl[filepath.Join(repoDir, dir, "zz_verif_race_test.go")] = testFile
+	ovb := []byte("{\"Replace\":{")
+	first := true
+	var keys []string
+	for k := range repl {
+		keys = append(keys, k)
+	}
+	sort.Strings(keys)
+	for _, k := range keys {
+		if !first {
+			ovb = append(ovb, ',')
+		}
+		first = false
+		ovb = append(ovb, []byte(strconv.Quote(k)+":"+strconv.Quote(repl[k]))...)
+	}
+	ovb = append(ovb, []byte("}}")...)
+	ovFile := filepath.Join(work, "overlay.json")
+	os.WriteFile(ovFile, ovb, 0o644)
+	cmd := exec.Command("go", "test", "-race", "-tags", "verif", "-vet=off", "-count=1", "-run", "^TestVerifRace$", "-overlay", ovFile, "./"+dir)
+	cmd.Dir = repoDir
+	cmd.Env = append(goEnv(), "GORACE=halt_on_error=0", "VERIF_TIER="+os.Getenv("VERIF_TIER"))
+	var buf bytes.Buffer
+	cmd.Stdout = &buf
+	cmd.Stderr = &buf
+	done := make(chan error, 1)
+	go func() { done <- cmd.Run() }()
+	select {
+	case <-done:
+	case <-time.After(180 * time.Second):
+		cmd.Process.Kill()
+		return nil, fmt.Errorf("race replay of %s timed out", harness)
+	}
+	out := buf.String()
+	if strings.Contains(out, "build failed") || strings.Contains(out, "[build failed]") {
+		return nil, fmt.Errorf("race replay build failed: %s", out)
+	}
+	var reports []string
+	parts := strings.Split(out, "WARNING: DATA RACE")
+	for _, pt := range parts[1:] {
+		if i := strings.Index(pt, "=================="); i >= 0 {
+			pt = pt[:i]
+		}
+		reports = append(reports, pt)
+	}
+	return reports, nil
 }
